@@ -61,16 +61,16 @@ def setRP (d : Data) (db rp : String) (r : RetentionPolicyInfo) : Data :=
 /-! ### `RetentionPolicyInfo.ShardGroupByTimestamp` -/
 
 /-- the condition of the loop body -/
-def sgMatches (g : ShardGroupInfo) (t : Time) : Bool :=
+def sgMatches (g : ShardGroupInfo) (t : Int) : Bool :=
   Contains g t && !Deleted g && (!Truncated g || Time.Before t g.TruncatedAt)
 
-def shardGroupByTimestamp (gs : List ShardGroupInfo) (t : Time) : Option ShardGroupInfo :=
+def shardGroupByTimestamp (gs : List ShardGroupInfo) (t : Int) : Option ShardGroupInfo :=
   gs.find? (sgMatches · t)
 
 /-! ### `ShardGroupInfos.Less` and `sort.Sort` -/
 
 /-- end of the range a group still accepts writes for (`TruncatedAt` if truncated) -/
-def effEnd (g : ShardGroupInfo) : Time :=
+def effEnd (g : ShardGroupInfo) : Int :=
   if Truncated g then g.TruncatedAt else g.EndTime
 
 /-- `ShardGroupInfos.Less` -/
@@ -94,7 +94,7 @@ def sgSort (gs : List ShardGroupInfo) : List ShardGroupInfo :=
 /-! ### `Data.CreateShardGroup` -/
 
 /-- one iteration of the clipping loop: `(startTime, endTime)` against group `g` -/
-def clipStep (ts : Time) (acc : Time × Time) (g : ShardGroupInfo) : Time × Time :=
+def clipStep (ts : Int) (acc : Int × Int) (g : ShardGroupInfo) : Int × Int :=
   if Deleted g then acc else
   let startI := g.StartTime
   let endI := if Truncated g then g.TruncatedAt else g.EndTime
@@ -102,21 +102,23 @@ def clipStep (ts : Time) (acc : Time × Time) (g : ShardGroupInfo) : Time × Tim
   let e := if Time.After startI ts && Time.Before startI acc.2 then startI else acc.2
   (s, e)
 
-/-- initial `[startTime, endTime)` before clipping.
-    (with `fixes/C18-clamp-start-min-nanotime.patch` applied the start is clamped at
-    `MinNanoTime` exactly as the end is clamped at `MaxNanoTime+1`) -/
-def initialBounds (sgd : Dur) (ts : Time) : Time × Time :=
+/-- initial `[startTime, endTime)` before clipping.  The end is clamped at `MaxNanoTime+1`;
+    with `fixes/C18-clamp-start-min-nanotime.patch` the start is clamped at `MinNanoTime`
+    (before the patch a `Truncate`d start below the int64 nanosecond range wrapped in
+    `MarshalTime`, DESIGN §6 F7). -/
+def initialBounds (sgd : Int) (ts : Int) : Int × Int :=
   let startTime := Time.Truncate ts sgd
   let endTime := Time.Add startTime sgd
   let endTime := if Time.After endTime (Time.Unix MaxNanoTime) then Time.Unix (MaxNanoTime + 1) else endTime
+  let startTime := if Time.Before startTime (Time.Unix MinNanoTime) then Time.Unix MinNanoTime else startTime
   (startTime, endTime)
 
 /-- bounds of the group `CreateShardGroup` creates for `ts` -/
-def newBounds (rp : RetentionPolicyInfo) (ts : Time) : Time × Time :=
+def newBounds (rp : RetentionPolicyInfo) (ts : Int) : Int × Int :=
   rp.ShardGroups.foldl (clipStep ts) (initialBounds rp.ShardGroupDuration ts)
 
 /-- `Data.CreateShardGroup(database, policy, timestamp)` (no explicit shards: one new shard) -/
-def createShardGroup (d : Data) (db rp : String) (ts : Time) : Except Err Data :=
+def createShardGroup (d : Data) (db rp : String) (ts : Int) : Except Err Data :=
   match getRP d db rp with
   | .error e => .error e
   | .ok r =>
@@ -130,7 +132,7 @@ def createShardGroup (d : Data) (db rp : String) (ts : Time) : Except Err Data :
 
 /-- `Client.CreateShardGroup`: returns the existing group for the timestamp, else
     `createShardGroup` (which re-reads the group by timestamp: it may be `nil`). -/
-def clientCreateShardGroup (d : Data) (db rp : String) (ts : Time) :
+def clientCreateShardGroup (d : Data) (db rp : String) (ts : Int) :
     Except Err (Data × Option ShardGroupInfo) :=
   -- (`ShardGroupByTimestamp`'s error is ignored by the client; `CreateShardGroup` reports the same one)
   match getRP d db rp with
@@ -150,7 +152,7 @@ def clientCreateShardGroup (d : Data) (db rp : String) (ts : Time) :
 
 /-- `Data.DeleteShardGroup`: sets `DeletedAt = now` on the first group with that id
     (also when it is already deleted). -/
-def deleteShardGroup (d : Data) (db rp : String) (id : Nat) (now : Time) : Except Err Data :=
+def deleteShardGroup (d : Data) (db rp : String) (id : Nat) (now : Int) : Except Err Data :=
   match getRP d db rp with
   | .error e => .error e
   | .ok r =>
@@ -162,7 +164,7 @@ def deleteShardGroup (d : Data) (db rp : String) (id : Nat) (now : Time) : Excep
     else .error .sgNotFound
 
 /-- `Data.DropShard` on the groups of one policy: `some` when the shard was found there -/
-def dropShardGroups (id : Nat) (now : Time) : List ShardGroupInfo → Option (List ShardGroupInfo)
+def dropShardGroups (id : Nat) (now : Int) : List ShardGroupInfo → Option (List ShardGroupInfo)
   | [] => none
   | g :: gs =>
     if g.Shards.any (·.ID == id) then
@@ -172,14 +174,14 @@ def dropShardGroups (id : Nat) (now : Time) : List ShardGroupInfo → Option (Li
       some (g' :: gs)
     else (dropShardGroups id now gs).map (g :: ·)
 
-def dropShardRPs (id : Nat) (now : Time) : List RetentionPolicyInfo → Option (List RetentionPolicyInfo)
+def dropShardRPs (id : Nat) (now : Int) : List RetentionPolicyInfo → Option (List RetentionPolicyInfo)
   | [] => none
   | r :: rs =>
     match dropShardGroups id now r.ShardGroups with
     | some gs => some ({ r with ShardGroups := gs } :: rs)
     | none => (dropShardRPs id now rs).map (r :: ·)
 
-def dropShardDBs (id : Nat) (now : Time) : List DatabaseInfo → Option (List DatabaseInfo)
+def dropShardDBs (id : Nat) (now : Int) : List DatabaseInfo → Option (List DatabaseInfo)
   | [] => none
   | di :: ds =>
     match dropShardRPs id now di.RetentionPolicies with
@@ -187,13 +189,13 @@ def dropShardDBs (id : Nat) (now : Time) : List DatabaseInfo → Option (List Da
     | none => (dropShardDBs id now ds).map (di :: ·)
 
 /-- `Data.DropShard(id)`: removes the first shard with that id; no error when absent -/
-def dropShard (d : Data) (id : Nat) (now : Time) : Data :=
+def dropShard (d : Data) (id : Nat) (now : Int) : Data :=
   match dropShardDBs id now d.Databases with
   | some ds => { d with Databases := ds }
   | none => d
 
 /-- `Data.PruneShardGroups(expiration)` -/
-def pruneShardGroups (d : Data) (expiration : Time) : Data :=
+def pruneShardGroups (d : Data) (expiration : Int) : Data :=
   { d with Databases := d.Databases.map fun di =>
       { di with RetentionPolicies := di.RetentionPolicies.map fun r =>
           { r with ShardGroups := r.ShardGroups.filter fun g =>
@@ -202,7 +204,7 @@ def pruneShardGroups (d : Data) (expiration : Time) : Data :=
 /-! ### retention selection (`ExpiredShardGroups`, `DeletedShardGroups`) -/
 
 /-- `RetentionPolicyInfo.ExpiredShardGroups(t)` -/
-def expiredShardGroups (r : RetentionPolicyInfo) (t : Time) : List ShardGroupInfo :=
+def expiredShardGroups (r : RetentionPolicyInfo) (t : Int) : List ShardGroupInfo :=
   r.ShardGroups.filter fun g =>
     !Deleted g && (r.Duration != 0 && Time.Before (Time.Add g.EndTime r.Duration) t)
 
@@ -213,7 +215,7 @@ def deletedShardGroups (r : RetentionPolicyInfo) : List ShardGroupInfo :=
 /-! ### queries -/
 
 /-- `Data.ShardGroupsByTimeRange` / `Client.ShardGroupsByTimeRange` -/
-def shardGroupsByTimeRange (d : Data) (db rp : String) (tmin tmax : Time) : Except Err (List ShardGroupInfo) :=
+def shardGroupsByTimeRange (d : Data) (db rp : String) (tmin tmax : Int) : Except Err (List ShardGroupInfo) :=
   match getRP d db rp with
   | .error e => .error e
   | .ok r => .ok (r.ShardGroups.filter fun g => !(Deleted g || !Overlaps g tmin tmax))
@@ -231,7 +233,7 @@ structure PBShardGroup where
 deriving Repr, DecidableEq
 
 /-- `UnmarshalTime` -/
-def UnmarshalTime (v : Int) : Time := if v == 0 then zeroTime else Time.Unix v
+def UnmarshalTime (v : Int) : Int := if v == 0 then zeroTime else Time.Unix v
 
 /-- `ShardGroupInfo.marshal` -/
 def marshalSG (g : ShardGroupInfo) : PBShardGroup :=
